@@ -6,7 +6,7 @@ Inductive pstate := SUnchanged | SCommitted | SOther.
 
 (* trace, index of the faulted operation, CAS-mismatch mode (the caller retries), whether the un-faulted
    request succeeds, the observed result, the observed primary state *)
-Inductive case := CFault (tr : list opclass) (k : nat) (casmode : bool) (expect_success : bool) (r : result) (s : pstate).
+Inductive case := CFault (tr : list opclass) (k : list nat) (casmode : bool) (expect_success : bool) (r : result) (s : pstate).
 
 Definition result_eqb (a b : result) : bool := match a, b with ROk, ROk | RErr, RErr => true | _, _ => false end.
 
@@ -14,8 +14,8 @@ Definition result_eqb (a b : result) : bool := match a, b with ROk, ROk | RErr, 
 Definition consistent (r : result) (s : pstate) : bool :=
   match r, s with RErr, SUnchanged | ROk, SCommitted => true | _, _ => false end.
 
-Definition is_read (tr : list opclass) (k : nat) : bool :=
-  match nth_error tr k with Some Read => true | _ => false end.
+Definition is_read (tr : list opclass) (k : list nat) : bool :=
+  existsb (fun f => match nth_error tr f with Some Read => true | _ => false end) k.
 
 Definition state_matches (committed_in_model : bool) (s : pstate) : bool :=
   match committed_in_model, s with true, SCommitted | false, SUnchanged => true | _, _ => false end.
@@ -25,7 +25,7 @@ Definition check (c : case) : bool :=
   | CFault tr k casmode expect r s =>
       if negb expect then result_eqb r RErr && consistent r s
       else if casmode || is_read tr k then consistent r s   (* a CAS mismatch may be retried; a failed read may be tolerated *)
-      else let m := run_request tr (Some k) in
+      else let m := run_request tr k in
            result_eqb r (snd m) && state_matches (committed (fst m)) s
   end.
 
